@@ -218,6 +218,7 @@ type treeOpts struct {
 	fan       int  // max chunk size per directory (>= 1)
 	gzip      bool // internal compression
 	shorthand bool
+	mixed     bool // directories may mix tile entries and leaf pointers; sub-trees of uneven depth
 }
 
 // buildTree lays the tile entries out as a directory tree. It returns the root directory's wire
@@ -243,7 +244,16 @@ func buildTree(r *rng, es []Ent, o treeOpts) (root []byte, leaves []byte, dirs [
 			if i+n > len(es) {
 				n = len(es) - i
 			}
-			sub := build(es[i:i+n], depth-1, level+1)
+			if o.mixed && r.chance(30) { // keep these tile entries in this directory, between pointers
+				ptrs = append(ptrs, es[i:i+n]...)
+				i += n
+				continue
+			}
+			subDepth := depth - 1
+			if o.mixed && subDepth > 0 && r.chance(40) {
+				subDepth = r.intn(subDepth)
+			}
+			sub := build(es[i:i+n], subDepth, level+1)
 			raw, wire := enc(sub)
 			ptrs = append(ptrs, Ent{ID: es[i].ID, Off: uint64(len(leaves)), Len: uint32(len(wire)), Run: 0})
 			dirs = append(dirs, dirRec{AbsOff: uint64(len(leaves)), Len: uint64(len(wire)), Raw: raw, Ents: sub, Depth: level + 1})
